@@ -402,6 +402,35 @@ pub fn c07_diamond(chk: &FuChecker, w: &mut World, g: &FuGhost, rec: &mut Rec) {
     w.restore(&snap);
 }
 
+/// Metamorphic clause "spelling out a default equals omitting it" (farm universe): Claim{until_epoch: None} = the current
+/// epoch, Withdraw{emergency_unlock: None} = false, Create{receiver: None} = the sender. The operation is re-run on a copy
+/// of the pre-state with the default spelled out; outcome class and the whole chain storage must be identical.
+fn fu_default_twin(c: &FuCtx) -> Option<FuOp> {
+    match c.op {
+        FuOp::Claim { u, until: None } => Some(FuOp::Claim { u: *u, until: Some(c.pre.cur) }),
+        FuOp::WithdrawPos { u, id, emergency: None } => Some(FuOp::WithdrawPos { u: *u, id: id.clone(), emergency: Some(false) }),
+        FuOp::CreatePos { u, lp, amount, dur, id, recv: None } => Some(FuOp::CreatePos { u: *u, lp: *lp, amount: *amount, dur: *dur, id: id.clone(), recv: Some(*u) }),
+        _ => None,
+    }
+}
+pub fn fu_defaults(c: &FuCtx, rec: &mut Rec) {
+    let Some(twin) = fu_default_twin(c) else { return };
+    let cfgw = cfg_with_fee(&("uom".to_string(), 1000)); // only the number of accounts matters for the scratch world
+    let (ok, same) = with_scratch(&cfgw, c.s0, |w2| {
+        let o = apply(w2, &twin);
+        (o.is_ok(), w2.app.storage().data == c.w.app.storage().data)
+    });
+    rec.count("explicit_default_twins");
+    rec.validated += 1;
+    if ok != c.out.is_ok() || !same {
+        let kind = match c.op {
+            FuOp::Claim { .. } => "C07_omitted_until_epoch_is_not_the_current_epoch",
+            _ => "C08_omitted_option_is_not_its_default",
+        };
+        rec.viol(kind, format!("{:?} accepted={} but with the default spelled out ({:?}) accepted={ok}, same resulting state={same}", c.op, c.out.is_ok(), twin));
+    }
+}
+
 // ------------------------------------------------------------------------------------------ C08
 fn others_untouched(c: &FuCtx, touched: &BTreeSet<String>, rec: &mut Rec) {
     for p in &c.pre.positions {
@@ -857,7 +886,7 @@ pub fn jobs_c06(tier: Tier) -> Vec<Job> {
     vec![explore_job(r, tier.pick(3, 4), Caps::default()), explore_job(core, tier.pick(5, 7), Caps::default()), explore_job(many, tier.pick(2, 4), Caps::default())]
 }
 pub fn jobs_c07(tier: Tier) -> Vec<Job> {
-    let r = FuChecker::new("c07-fu-reward", vec!["F1", "F2", "F3", "F7", "F9", "F11"], FAlpha::Reward, vec![c07_share]);
+    let r = FuChecker::new("c07-fu-reward", vec!["F1", "F2", "F3", "F7", "F9", "F11"], FAlpha::Reward, vec![c07_share, fu_defaults]);
     let mut d = FuChecker::new("c07-fu-diamond", vec!["F2", "F3", "F13"], FAlpha::RewardCore, vec![c07_share]);
     d.state_oracles = vec![c07_diamond];
     let mut many = FuChecker::new("c07-fu-manyfarms", vec!["F6"], FAlpha::RewardCore, vec![c07_share, c06_rewards]);
@@ -866,7 +895,7 @@ pub fn jobs_c07(tier: Tier) -> Vec<Job> {
 }
 pub fn jobs_c08(tier: Tier) -> Vec<Job> {
     let full = FuChecker::new("c08-fu-full", vec!["F0", "F2", "F4", "F5"], FAlpha::Full, vec![c08_positions]);
-    let p = FuChecker::new("c08-fu-positions", vec!["F1", "F4", "F5", "F7"], FAlpha::Positions, vec![c08_positions]);
+    let p = FuChecker::new("c08-fu-positions", vec!["F1", "F4", "F5", "F7"], FAlpha::Positions, vec![c08_positions, fu_defaults]);
     vec![explore_job(full, tier.pick(2, 3), Caps::default()), explore_job(p, tier.pick(3, 4), Caps::default())]
 }
 pub fn jobs_c10_explore(tier: Tier) -> Vec<Job> {
